@@ -9,9 +9,11 @@ import (
 	"time"
 
 	"github.com/gofiber/fiber/v3"
+	"github.com/gofiber/fiber/v3/client"
 	"github.com/gofiber/fiber/v3/middleware/adaptor"
 	"github.com/gofiber/fiber/v3/middleware/cache"
 	"github.com/gofiber/fiber/v3/middleware/session"
+	"github.com/valyala/fasthttp/fasthttputil"
 )
 
 // F40 (C10): New appended to the TrustProxyConfig.ranges it was handed; an app built from another
@@ -208,6 +210,127 @@ func TestF45_AdaptorLocalsDoNotLeak(t *testing.T) {
 		h(rec, httptest.NewRequest("GET", "/", nil))
 		if got := rec.Body.String(); got != "prev=" {
 			t.Fatalf("round %d: second request sees the first request's locals: %q", i, got)
+		}
+	}
+}
+
+// F47 (C08): two mount points that differ in letter case only (CaseSensitive off) fold to the same
+// prefix; the strict length comparison kept whichever the map iteration produced first.
+func TestF47_CaseDuplicateMountPointsAreDeterministic(t *testing.T) {
+	seen := map[string]int{}
+	for i := 0; i < 60; i++ {
+		mk := func(name string) *fiber.App {
+			a := fiber.New(fiber.Config{ErrorHandler: func(c fiber.Ctx, _ error) error { return c.Status(500).SendString(name) }})
+			a.Get("/x", func(fiber.Ctx) error { return fiber.ErrTeapot })
+			return a
+		}
+		app := fiber.New()
+		app.Use("/API", mk("upper"))
+		app.Use("/api", mk("lower"))
+		rc := do(app, "GET", "/api/x")
+		seen[string(rc.Response.Body())]++
+	}
+	if len(seen) != 1 {
+		t.Fatalf("one mount structure, one path, several error handlers: %v", seen)
+	}
+}
+
+// F48 (C09): the weight parameter was recognised as `q` only; parameter names are case-insensitive
+// (and ABNF literals such as "q=" match either case): `text/html;level=1;Q=0` must not select text/html.
+func TestF48_UpperCaseWeightName(t *testing.T) {
+	app := fiber.New()
+	var got string
+	app.Get("/", func(c fiber.Ctx) error { got = c.Accepts("text/html", "text/plain"); return nil })
+	do(app, "GET", "/", "Accept", "text/html;Q=0, text/plain;Q=0.5")
+	if got != "text/plain" {
+		t.Fatalf("Accept: text/html;Q=0, text/plain;Q=0.5 selects %q, want text/plain", got)
+	}
+}
+
+// F49 (C18): the URL was split at every '?', only the piece after the first was sent as query.
+func TestF49_QueryWithSecondQuestionMark(t *testing.T) {
+	app := fiber.New()
+	app.Get("/p", func(c fiber.Ctx) error { return c.SendString(string(c.Request().URI().QueryString())) })
+	ln, err := net.Listen("tcp", "127.0.0.1:0")
+	if err != nil {
+		t.Skip("no loopback listener")
+	}
+	go func() { _ = app.Listener(ln, fiber.ListenConfig{DisableStartupMessage: true}) }()
+	defer func() { _ = app.Shutdown() }()
+	resp, err := client.New().Get("http://" + ln.Addr().String() + "/p?a=b?c&d=e")
+	if err != nil {
+		t.Fatal(err)
+	}
+	defer resp.Close()
+	if got := string(resp.Body()); !strings.Contains(got, "d=e") {
+		t.Fatalf("query arrived as %q, the part after the second '?' is lost", got)
+	}
+}
+
+// F50 (C18): request-level and client-level path parameters were substituted in two passes, each ordered
+// longest-first on its own: a request-level :id pre-empted a client-level :idx.
+func TestF50_PathParamsOfBothLevelsInOneOrderedPass(t *testing.T) {
+	app := fiber.New()
+	app.Get("/*", func(c fiber.Ctx) error { return c.SendString(c.Path()) })
+	ln, err := net.Listen("tcp", "127.0.0.1:0")
+	if err != nil {
+		t.Skip("no loopback listener")
+	}
+	go func() { _ = app.Listener(ln, fiber.ListenConfig{DisableStartupMessage: true}) }()
+	defer func() { _ = app.Shutdown() }()
+	cl := client.New().SetPathParam("idx", "2")
+	resp, err := cl.R().SetPathParam("id", "1").Get("http://" + ln.Addr().String() + "/u/:idx/:id")
+	if err != nil {
+		t.Fatal(err)
+	}
+	defer resp.Close()
+	if got := string(resp.Body()); got != "/u/2/1" {
+		t.Fatalf("client {idx:2} + request {id:1} on /u/:idx/:id arrives as %q, want /u/2/1", got)
+	}
+}
+
+// F51 (C07): serverErrorHandler searched the error text for "timeout"; fasthttp quotes the request bytes in
+// its parse errors, so a malformed request that merely contains the word chose its own status (408).
+func TestF51_MalformedRequestMentioningTimeoutIs400(t *testing.T) {
+	app := fiber.New()
+	app.Get("/*", func(c fiber.Ctx) error { return c.SendString("ok") })
+	for _, target := range []string{"/x", "/timeout"} {
+		pc := fasthttputil.NewPipeConns()
+		go func() { _ = app.Server().ServeConn(pc.Conn2()) }()
+		conn := pc.Conn1()
+		_, _ = conn.Write([]byte("GET " + target + " HTTP/1.1\r\nHost: a\r\nContent-Length: abc\r\n\r\n"))
+		buf := make([]byte, 256)
+		_ = conn.SetReadDeadline(time.Now().Add(2 * time.Second))
+		n, _ := conn.Read(buf)
+		_ = conn.Close()
+		if !strings.HasPrefix(string(buf[:n]), "HTTP/1.1 400") {
+			t.Errorf("malformed request for %s: %q, want 400", target, strings.SplitN(string(buf[:n]), "\r\n", 2)[0])
+		}
+	}
+}
+
+// F52 (C04): a sub-app mounted with a list of prefixes was mounted on the first one only.
+func TestF52_MountOnEveryListedPrefix(t *testing.T) {
+	mk := func() *fiber.App {
+		sub := fiber.New()
+		sub.Get("/x", func(c fiber.Ctx) error { return c.SendString("sub") })
+		return sub
+	}
+	mounted := fiber.New()
+	mounted.Use([]string{"/p", "/q"}, mk())
+	grouped := fiber.New()
+	for _, p := range []string{"/p", "/q"} {
+		grouped.Group(p).Get("/x", func(c fiber.Ctx) error { return c.SendString("sub") })
+	}
+	viaGroup := fiber.New()
+	viaGroup.Group("/g").Use([]string{"/p", "/q"}, mk())
+	for _, path := range []string{"/p/x", "/q/x"} {
+		a, b := do(mounted, "GET", path).Response.StatusCode(), do(grouped, "GET", path).Response.StatusCode()
+		if a != b {
+			t.Errorf("GET %s: mounted with a prefix list %d, registered under groups %d", path, a, b)
+		}
+		if c := do(viaGroup, "GET", "/g"+path).Response.StatusCode(); c != 200 {
+			t.Errorf("GET /g%s: mounted through a group with a prefix list %d", path, c)
 		}
 	}
 }
